@@ -33,10 +33,12 @@ impl C10 {
         let nn = sc.cmds.len() as u64;
         let window = (101 * nn * nn + nn + 10).min(80_000);
         let pf = reflang::preflight(&sc.cmds, &sc.stdin, window, sc.cap_bits, false);
-        if matches!(pf.halt, Halt::Cap | Halt::Memory | Halt::Ended(End::Unspecified(_))) {
+        // writing a value of 2^32 or more: what is written is unspecified, but optimising such a program is not
+        let unspecified_output = matches!(&pf.halt, Halt::Ended(End::Unspecified(m)) if m.starts_with("output value"));
+        if matches!(pf.halt, Halt::Cap | Halt::Memory) || (matches!(pf.halt, Halt::Ended(End::Unspecified(_))) && !unspecified_output) {
             return (0, None);
         }
-        let model_encoding = matches!(pf.halt, Halt::Ended(End::Encoding(_)));
+        let model_encoding = matches!(pf.halt, Halt::Ended(End::Encoding(_))) || unspecified_output;
         let dir = sim::scratch_dir().join("c10real");
         std::fs::create_dir_all(&dir).expect("mkdir");
         let prog = dir.join("p.hyeong");
@@ -122,6 +124,11 @@ impl Property for C10 {
         if rng.chance(20) {
             sc.set_knob("layout", 1);
         }
+        if rng.chance(6) {
+            // output edge family (drawn last): the pre-executed part writes something and then a value that is
+            // no plain character (2^32·k + low word, surrogate, above U+10FFFF)
+            sc.cmds = gen::output_edge(rng);
+        }
         sc
     }
     fn run(&self, sc: &Scenario) -> RunOut {
@@ -142,13 +149,17 @@ impl Property for C10 {
                 out.skipped = Some("values leave the cap inside the speculation window");
                 return out;
             }
-            Halt::Ended(End::Unspecified(_)) => {
+            Halt::Ended(End::Unspecified(m)) if !m.starts_with("output value") => {
                 out.skipped = Some("unspecified behaviour inside the speculation window");
                 return out;
             }
             _ => {}
         }
-        let model_encoding = matches!(pf.halt, Halt::Ended(End::Encoding(_)));
+        // writing a value of 2^32 or more: what is written is unspecified (an encoding error is as good as a
+        // character), but the optimiser still has to return without effects
+        let unspecified_output = matches!(&pf.halt, Halt::Ended(End::Unspecified(_)));
+        out.add("writes_value_of_2^32_or_more_in_window", unspecified_output as u64);
+        let model_encoding = matches!(pf.halt, Halt::Ended(End::Encoding(_))) || unspecified_output;
         let selects_io_then_pops = {
             let mut sel_io = false;
             let mut hit = false;
